@@ -86,9 +86,13 @@ def run(ctx):
         "0 / next to 2^32 / random; Send, Recv, flush/Update under an advancing clock, genuine delivery with loss, duplication, "
         "reordering, and forged datagrams: ACKs and UNA around the send window, PUSH around the receive window, truncated, foreign "
         "conv, bad cmd, bad length; Put of re-sliced views) with sanitizer + exact census after every operation, replayed on the "
-        "extracted model; raw FEC decoder fed by a real encoder under loss/dup/reorder and a parameter change; 8 session "
-        "scenarios (none/aes/salsa20/xor/aes-gcm x FEC on/off x loss, 1-3 concurrent sessions on one listener) with stream "
-        "oracles and live census.  non-trivial core case = it showed a data-less acked segment retained in snd_buf AND a PUSH "
+        "extracted model; raw FEC decoder fed by a real encoder under loss/dup/reorder/late packets, with sender and receiver "
+        "layouts that agree, differ from the first packet, or diverge mid-stream after packets were parked under loss - "
+        "including pairs of EQUAL group size (3+1/2+2, 2+2/1+3, 10+3/11+2, 5+2/4+3, 3+2/2+3) - followed by enough traffic for "
+        "discardShards and late packets of stale groups (re-tunes, re-tunes with packets parked and same-group-size re-tunes "
+        "are counted in input_distribution and in model_replay); 10 session scenarios (none/aes/salsa20/xor/aes-gcm x FEC "
+        "on/off x loss, 1-3 concurrent sessions on one listener, two with listener and dialler configured with different FEC "
+        "layouts so that both decoders re-tune under loss) with stream oracles and live census.  non-trivial core case = it showed a data-less acked segment retained in snd_buf AND a PUSH "
         "that acquired no buffer (duplicate/out of window) AND a successful Recv; non-trivial session scenario = both streams "
         "complete.  Close: close orders over {client, accepted, listener, transport} x close points {idle, mid-transfer, full "
         "queues, during FEC recovery} x {socket owned, not owned}, plus never-accepted sessions and a peer arriving after "
